@@ -216,14 +216,18 @@ class Sequential(Part):
 class Track(Part):
     name = "track"
     rule = ("track() over a list / range / generator of length 0..1500 (mostly <= 50; lengths around 100 / 200 / 1000) with implicit or explicit total, auto_refresh on (real helper thread, update_period 1 ms; "
-            "only the final state is asserted) and off, into a fresh task or an existing one: yields every element once in order and leaves completed == "
-            "number of elements; non-trivial = generator input or auto_refresh on with >= 2 elements")
+            "only the final state is asserted; or a period of 60 s, so that it never polls) and off, into a fresh task or an existing one, the source optionally raising "
+            "after k elements (the caller catches it): yields every element once in order and leaves completed == number of elements yielded; non-trivial = generator input or auto_refresh on with >= 2 elements")
     budget = {"quick": (4, 150), "thorough": (16, 1500)}
     chunk = 150
 
     def strategy(self, tier):
-        return st.builds(lambda n, kind, explicit, auto, existing: {"n": n, "kind": kind, "explicit_total": explicit, "auto_refresh": auto, "existing": existing},
-                         st.one_of(st.integers(0, 5), st.integers(0, 50), st.integers(0, 50), st.sampled_from([99, 100, 101, 199, 200, 201, 250, 299, 1000, 1234]), st.integers(51, 1500)), st.sampled_from(["list", "range", "generator"]), st.booleans(), st.booleans(), st.booleans())
+        return st.builds(lambda n, kind, explicit, auto, existing, fail, period: {"n": n, "kind": kind, "explicit_total": explicit, "auto_refresh": auto, "existing": existing, "fails_after": fail, "period": period},
+                         st.one_of(st.integers(0, 5), st.integers(0, 50), st.integers(0, 50), st.sampled_from([99, 100, 101, 199, 200, 201, 250, 299, 1000, 1234]), st.integers(51, 1500)), st.sampled_from(["list", "range", "generator"]), st.booleans(), st.booleans(), st.booleans(),
+                         # the source fails part-way (a download stream that breaks): it raises instead of producing element number k (as a fraction of n); the caller catches the error
+                         st.one_of(st.none(), st.none(), st.floats(0, 1)),
+                         # how often the helper thread polls (with 60 s it never does before the end)
+                         st.sampled_from([0.001, 0.001, 60]))
 
     def check(self, spec, ctx):
         from rich.console import Console
@@ -240,19 +244,44 @@ class Track(Part):
             items = list(range(n))
         else:
             seq = (x for x in items)
-        total = n if (spec["explicit_total"] or spec["kind"] == "generator") else None
+        fails = None
+        if spec.get("fails_after") is not None:
+            fails = int(spec["fails_after"] * n)
+            src = seq
+
+            class SourceBroke(Exception):
+                pass
+
+            def failing():
+                for k, x in enumerate(src):
+                    if k == fails:
+                        break
+                    yield x
+                raise SourceBroke("the source failed after %d elements" % fails)
+
+            seq = failing()
+            ctx.cls("source-fails-part-way")
+        total = n if (spec["explicit_total"] or spec["kind"] == "generator" or fails is not None) else None
         tid = None
         if spec["existing"]:
             tid = sut(progress.add_task, "existing", total=7, start=True)
         got = []
-        for v in sut(progress.track, seq, total=total, task_id=tid, update_period=0.001):
-            got.append(v)
+        try:
+            for v in sut(progress.track, seq, total=total, task_id=tid, update_period=spec.get("period", 0.001)):
+                got.append(v)
+        except Exception as e:  # noqa
+            if fails is None or type(e).__name__ != "SourceBroke":
+                raise
+        if fails is not None:
+            items = items[:fails]
+        yielded = len(items)
         if got != items:
             ctx.violation("track", "C12/track/elements", "track() yielded %r, the sequence is %r" % (got[:10], items[:10]))
             return
         task = progress.tasks[-1] if tid is None else progress._tasks[tid]
-        if task.completed != n:
-            ctx.violation("track", "C12/track/completed", "after track() over %d elements (auto_refresh=%r, %s) completed = %r" % (n, spec["auto_refresh"], spec["kind"], task.completed))
+        if task.completed != yielded:
+            ctx.violation("track", "C12/track/completed" + ("-source-failed" if fails is not None else ""), "after track() yielded %d elements%s (auto_refresh=%r, %s, polling every %r s) completed = %r" % (
+                yielded, " and the source then raised" if fails is not None else "", spec["auto_refresh"], spec["kind"], spec.get("period", 0.001), task.completed))
             return
         if task.total != n:
             ctx.violation("track", "C12/track/total", "task total %r, expected %d" % (task.total, n))
